@@ -69,6 +69,8 @@ pub fn thread_init() {
     reset_case();
     let cb = RecCb::new();
     let _ = take_cb_log(cb.id);
+    ZLOG.with(|l| l.borrow_mut().reserve(4096));
+    let _ = take_cb_log(ZST_CB);
     bad(String::new());
     let _ = take_bad();
     let _ = take_last_panic();
@@ -92,6 +94,7 @@ pub fn reset_case() {
     CNT.with(|c| c.set(0));
     FIRED.with(|f| f.set(None));
     CB_LOGS.with(|l| l.borrow_mut().clear());
+    ZLOG.with(|l| l.borrow_mut().clear());
     DROPS.with(|d| d.set(0));
     DROP_LOG_ON.with(|d| d.set(false));
     DROP_LOG.with(|l| l.borrow_mut().clear());
@@ -584,16 +587,56 @@ impl Clone for RecCb {
     }
 }
 
+/// a zero-sized recording callback (a unit struct, as a client reporting into a global
+/// journal would write it); all its instances share one per-thread log, id `ZST_CB`
+#[derive(Clone)]
+pub struct RecCbZ;
+pub const ZST_CB: usize = usize::MAX;
+thread_local! {
+    static ZLOG: RefCell<Vec<(u16, u32)>> = RefCell::new(Vec::new());
+}
+
+impl OnEvictCallback for RecCbZ {
+    fn on_evict<K, V>(&self, key: &K, val: &V) {
+        point(Point::Callback);
+        let (p, t) = decode_kv(key, val);
+        ZLOG.with(|l| l.borrow_mut().push((p, t)));
+    }
+}
+
+fn decode_kv<K, V>(key: &K, val: &V) -> (u16, u32) {
+    let kn = std::any::type_name::<K>();
+    let p = if kn == std::any::type_name::<TKey>() && std::mem::size_of::<K>() == std::mem::size_of::<TKey>() {
+        unsafe { &*(key as *const K as *const TKey) }.read()
+    } else if kn == std::any::type_name::<String>() {
+        skey_payload(unsafe { &*(key as *const K as *const String) })
+    } else {
+        u16::MAX
+    };
+    let t = if std::any::type_name::<V>() == std::any::type_name::<TVal>() {
+        unsafe { &*(val as *const V as *const TVal) }.read()
+    } else {
+        u32::MAX
+    };
+    (p, t)
+}
+
 /// id of the most recently created callback log (the clone's, right after a clone)
 pub fn last_cb_id() -> Option<usize> {
     CB_LOGS.with(|l| l.borrow().len().checked_sub(1))
 }
 
 pub fn clear_cb_logs() {
+    ZLOG.with(|l| l.borrow_mut().clear());
     CB_LOGS.with(|l| l.borrow_mut().clear());
 }
 
 pub fn take_cb_log(id: usize) -> Vec<(u16, u32)> {
+    if id == ZST_CB {
+        // drain (keep the buffer): the shared log must never allocate inside a case, or the
+        // block counts of C04 would see it
+        return ZLOG.with(|l| l.borrow_mut().drain(..).collect());
+    }
     CB_LOGS.with(|l| l.borrow_mut().get_mut(id).map(std::mem::take).unwrap_or_default())
 }
 
